@@ -5,6 +5,7 @@ import (
 	"bytes"
 	stdjson "encoding/json"
 	"fmt"
+	"math"
 	"math/big"
 	"reflect"
 	"regexp"
@@ -310,17 +311,144 @@ func modelKind(lit string, f json.ParseFlags) string {
 	return "float64"
 }
 
+// ---- values that cannot be encoded: the error must not depend on the flags (nor on the map iteration order)
+
+var failingMembers = []struct {
+	name string
+	v    any
+}{
+	{"NaN", math.NaN()}, {"chan", make(chan int)}, {"failing Marshaler", jgen.ErrM{A: 1}}, {"invalid RawMessage", stdjson.RawMessage(`{"a":}`)}, {"invalid Number", stdjson.Number("1x")}, {"+Inf in a slice", []any{1, math.Inf(1)}},
+}
+
+func failingValues(c *explore.Ctx) {
+	fm := failingMembers[c.Choose(len(failingMembers))]
+	shape := c.Choose(6)
+	entries := 2 + c.Choose(4)
+	mk := func() map[string]any {
+		m := map[string]any{"bad": fm.v}
+		for i := 1; i < entries; i++ {
+			m[fmt.Sprintf("k%d", i)] = i
+		}
+		return m
+	}
+	var x any
+	name := ""
+	switch shape {
+	case 0:
+		x, name = mk(), "map[string]any"
+	case 1:
+		x, name = map[string]any{"outer": mk(), "z": 1}, "map in map"
+	case 2:
+		x, name = []any{mk(), 2}, "map in slice"
+	case 3:
+		x, name = struct {
+			M map[string]any
+			Z int
+		}{mk(), 1}, "map in struct"
+	case 4:
+		x, name = &struct{ M map[string]any }{mk()}, "map in *struct"
+	case 5:
+		m := map[string]stdjson.RawMessage{"bad": stdjson.RawMessage(`{"a":}`)}
+		for i := 1; i < entries; i++ {
+			m[fmt.Sprintf("k%d", i)] = stdjson.RawMessage("1")
+		}
+		x, name = m, "map[string]RawMessage"
+	}
+	var n int64
+	for fl := json.AppendFlags(0); fl < 8; fl++ {
+		if fl&json.TrustRawMessage != 0 && (shape == 5 || fm.name == "invalid RawMessage") {
+			continue // the caller vouches for the raw messages
+		}
+		for rep := 0; rep < 12; rep++ {
+			n++
+			var out []byte
+			var err error
+			if pv, ps := explore.Catch(func() { out, err = json.Append([]byte("pre"), x, fl) }); pv != nil {
+				c.Fail("failing-values:panic:"+ps, "Append(flags %03b) panicked: %v for %s with a %s member", fl, pv, name, fm.name)
+				break
+			}
+			if err == nil {
+				c.Fail(fmt.Sprintf("failing-values:no-error:%03b:%s", fl, name), "Append(flags %03b) of a %s with a %s member (%d entries) returns %s and no error", fl, name, fm.name, entries, trunc(out))
+				break
+			}
+			if !bytes.HasPrefix(out, []byte("pre")) {
+				c.Fail(fmt.Sprintf("failing-values:prefix-lost:%03b", fl), "Append(flags %03b) returns %q with an error: the destination's bytes are gone", fl, trunc(out))
+				break
+			}
+		}
+	}
+	c.Inner(n)
+	c.NontrivialStr("failing", fm.name, name, fmt.Sprint(entries))
+	c.Outcome("failing=" + fm.name)
+	c.Case(map[string]any{"member": fm.name, "shape": name, "entries": entries, "encodings": n})
+}
+
+// places where a number can land in an interface: the Use* flags must reach all of them
+type namedEmptyIface interface{}
+
+type ifaceHolder struct{ K any }
+
+type numberPlace struct {
+	name   string
+	doc    func(lit string) string
+	target func() any
+	get    func(target any) any
+}
+
+func anyOf(target any) any { return *(target.(*any)) }
+
+var numberPlaces = []numberPlace{
+	{"bare", func(l string) string { return l }, func() any { return new(any) }, anyOf},
+	{"in array", func(l string) string { return "[" + l + "]" }, func() any { return new(any) }, func(t any) any {
+		if a, ok := anyOf(t).([]any); ok && len(a) == 1 {
+			return a[0]
+		}
+		return anyOf(t)
+	}},
+	{"object member", func(l string) string { return `{"k":` + l + "}" }, func() any { return new(any) }, func(t any) any {
+		if o, ok := anyOf(t).(map[string]any); ok {
+			return o["k"]
+		}
+		return anyOf(t)
+	}},
+	{"named empty interface field", func(l string) string { return `{"K":` + l + "}" }, func() any { return new(struct{ K namedEmptyIface }) }, func(t any) any {
+		return t.(*struct{ K namedEmptyIface }).K
+	}},
+	{"any holding a pointer to a struct with an any field", func(l string) string { return `{"K":` + l + "}" }, func() any { var x any = &ifaceHolder{}; return &x }, func(t any) any {
+		if h, ok := anyOf(t).(*ifaceHolder); ok {
+			return h.K
+		}
+		return anyOf(t)
+	}},
+	{"[]any field", func(l string) string { return `{"K":[0,` + l + "]}" }, func() any { return new(struct{ K []any }) }, func(t any) any {
+		if k := t.(*struct{ K []any }).K; len(k) == 2 {
+			return k[1]
+		}
+		return nil
+	}},
+	{"map[string]any held by a pointer in a named interface", func(l string) string { return `{"k":` + l + "}" }, func() any {
+		var x namedEmptyIface = &map[string]any{}
+		return &x
+	}, func(t any) any {
+		if m, ok := (*(t.(*namedEmptyIface))).(*map[string]any); ok {
+			return (*m)["k"]
+		}
+		return *(t.(*namedEmptyIface))
+	}},
+}
+
 func numberKinds(c *explore.Ctx) {
 	lit := numberLits[c.Choose(len(numberLits))]
-	ctx := c.Choose(3) // bare, inside an array, as an object member
-	doc := []string{lit, "[" + lit + "]", `{"k":` + lit + "}"}[ctx]
+	ctx := c.Choose(len(numberPlaces)) // where the interface that receives the number sits
+	place := numberPlaces[ctx]
+	doc := place.doc(lit)
 	var n int64
 	for m := 0; m < 512; m++ {
 		f := json.ParseFlags(m) // the nine public flags are bits 0..8
 		n++
-		var x any
+		target := place.target()
 		var err error
-		if pv, ps := explore.Catch(func() { _, err = json.Parse([]byte(doc), &x, f) }); pv != nil {
+		if pv, ps := explore.Catch(func() { _, err = json.Parse([]byte(doc), target, f) }); pv != nil {
 			c.Fail("use-flags:panic:"+ps, "Parse(%s, flags %09b) panicked: %v", doc, m, pv)
 			continue
 		}
@@ -338,17 +466,7 @@ func numberKinds(c *explore.Ctx) {
 			c.Fail("use-flags:error:"+want, "Parse(%s, flags %09b) fails: %v (expected a %s)", doc, m, err, want)
 			continue
 		}
-		got := x
-		switch ctx {
-		case 1:
-			if a, ok := x.([]any); ok && len(a) == 1 {
-				got = a[0]
-			}
-		case 2:
-			if o, ok := x.(map[string]any); ok {
-				got = o["k"]
-			}
-		}
+		got := place.get(target)
 		gk := fmt.Sprintf("%T", got)
 		if gk != want {
 			c.Fail(fmt.Sprintf("use-flags:dynamic-type:%s-for-%s", gk, want), "Parse(%s, flags %09b) stores a %s, the documented precedence gives %s", doc, m, gk, want)
@@ -480,6 +598,7 @@ func Spec() *explore.Spec {
 		ID: "C14",
 		Families: []*explore.Family{
 			{Name: "append-flags", ShardDepth: 1, Body: appendFlags, Doc: "~500 (thorough: ~3500, all of C01's depth-2 universe) type shapes (all specialised and generic maps with 0/1/2/many entries, RawMessage valid/compact/whitespace/invalid, Number, any, marshalers that fail, HTML-sensitive keys) x boundary values x all 8 AppendFlags subsets (TrustRawMessage only for valid raws): error iff default flags error, valid JSON, same generic value as the default output, bytes equal to the standard Encoder with SetEscapeHTML(false), unsorted output of the same length, Encoder setters equivalent; every output parsed back with all 16 subsets of the non-semantic ParseFlags and compared with the original (for values encoding/json round-trips)"},
+			{Name: "failing-values", ShardDepth: 2, Body: failingValues, Doc: "values one of whose members cannot be encoded (NaN, channel, failing Marshaler, invalid RawMessage / Number) inside maps of 2-5 entries, nested maps, slices and structs x all 8 AppendFlags subsets, each encoded 12 times (map iteration order is the runtime's): an error for every flag subset, and the destination prefix is kept"},
 			{Name: "number-kinds", ShardDepth: 2, Body: numberKinds, Doc: "23 number literals at every int64/uint64 boundary and beyond x {bare, in array, in object} x all 512 ParseFlags subsets: dynamic type per the documented precedence, numeric value preserved exactly (big.Float)"},
 			{Name: "parse-flags", ShardDepth: 1, Body: parseFlags, Doc: "typed targets x valid documents x all 512 ParseFlags subsets (minus DisallowUnknownFields): same decoded value as with no flags"},
 		},
